@@ -25,8 +25,14 @@ def gen_random(R, count, nmax):
         nx = R.rng.randint(1, nmax)
         ny = R.rng.randint(1, nmax)
         dens = R.rng.choice([0.1, 0.3, 0.6, 0.9])
-        gs.append(flowlib.rand_bip(R.rng, nx, ny, dens, R.rng.random() < 0.5,
-                                   labels="plain" if R.rng.random() < 0.7 else "random"))
+        g = flowlib.rand_bip(R.rng, nx, ny, dens, R.rng.random() < 0.5, labels="plain" if R.rng.random() < 0.7 else "random")
+        if t % 4 == 3 and len(g["Y"]) >= 2:
+            # every left vertex has exactly two neighbours and the sides are (nearly) equal: maximum matchings need augmenting paths that
+            # cancel earlier choices (an edge is used, given back and possibly used again)
+            Y = g["Y"]
+            for x in g["X"]:
+                g["adj"][str(x)] = R.rng.sample(Y, 2)
+        gs.append(g)
     return gs
 
 
@@ -194,7 +200,7 @@ def run(R):
                      "Koenig cover computed by the harness from the implementation's matching is only a certificate: it is checked by the Lean koenigCertOk"]
     for c in corpus():
         run_batch(R, [c["graph"]], "corpus", 10.0)
-    run_batch(R, gen_random(R, 5000 if R.thorough else 800, 10 if R.thorough else 7), "random", 120.0)
+    run_batch(R, gen_random(R, 5000 if R.thorough else 1600, 10 if R.thorough else 7), "random", 120.0)
     if R.thorough:
         R.exhaustive = True
         run_batch(R, list(gen_exhaustive()), "exhaustive", 300.0)
